@@ -139,8 +139,15 @@ func parentWild(name string) []string {
 // ending: a cycle back to any member, a self reference, addresses, an
 // exception, a name outside the table, or nothing.
 func genChain(t *rapid.T) (out []Entry) {
+	out, _ = genChainNames(t)
+	return out
+}
+
+// genChainNames is genChain that also returns the names n0 ... nk; out[i] is
+// the hop from ns[i] for i < k, the rest is the ending.
+func genChainNames(t *rapid.T) (out []Entry, ns []string) {
 	k := rapid.IntRange(1, 5).Draw(t, "chain_len")
-	ns := rapid.SliceOfNDistinct(rapid.SampledFrom(exactNames), k+1, k+1, rapid.ID[string]).Draw(t, "chain_names")
+	ns = rapid.SliceOfNDistinct(rapid.SampledFrom(exactNames), k+1, k+1, rapid.ID[string]).Draw(t, "chain_names")
 	pat := func(i int) string {
 		// Sometimes the hop is made through a wildcard that covers the name.
 		if ws := parentWild(ns[i]); len(ws) > 0 && rapid.IntRange(0, 3).Draw(t, "hop_wild") == 0 {
@@ -169,7 +176,7 @@ func genChain(t *rapid.T) (out []Entry) {
 		out = append(out, Entry{D: pat(k), A: rapid.SampledFrom(extraNames).Draw(t, "end_extra")})
 	default: // the last name has no entry of its own
 	}
-	return out
+	return out, ns
 }
 
 func genTable(t *rapid.T) []Entry {
